@@ -224,6 +224,7 @@ def histories(chk, tier):
         hs += wcommon.gen_histories(chk, [2, 3, 4, 5, 6, 7, 8], [0, 2, 9], 3, 2, nullmode="runs", simulate=40, depth=40, workers=4)
     else:
         hs += stride(wcommon.gen_histories(chk, [1], [1, 2, 3], 2, 2, workers=6), 30)
+        hs += stride(wcommon.gen_histories(chk, [2, 3], [0, 2, 3], 2, 2, workers=6, limit=20000), 30)
         hs += wcommon.gen_histories(chk, [2, 3, 4, 5, 6, 7, 8], [0, 1, 2, 9, 17], 3, 3, nullmode="runs", anyorder=True,
                                     simulate=400, depth=60, workers=6)
     seen, out = set(), []
@@ -428,7 +429,7 @@ def _run(chk, tier, replay, binary, fdir, extra_paths):
         for hi, ops in enumerate(hs):
             for cfg in sorted(tset | sset):
                 # the first config of each part takes every history, the other configs a share of them
-                want_sink = cfg in sset and (cfg == sorted(sset)[0] or hi % (3 if tier == "quick" else 5) == 0)
+                want_sink = cfg in sset and (cfg == sorted(sset)[0] or hi % 3 == 0)
                 want_trunc = cfg in tset and (cfg == sorted(tset)[0] or tier != "quick" or hi % 2 == 0)
                 if want_sink or want_trunc:
                     groups.append((ops, cfg[0], cfg[1], want_trunc, want_sink))
@@ -546,6 +547,8 @@ def _run(chk, tier, replay, binary, fdir, extra_paths):
     for r in ress:
         chk.add_tlc(r)
     chk.cov["traces_validated_against_impl"] += stats["runs"]
+    sizes = sorted(len(refs[gi][2]) for gi in plan if plan[gi]["pfx"])
+    chk.part("truncation", file_bytes_min_median_max=[sizes[0], sizes[len(sizes) // 2], sizes[-1]] if sizes else [])
     chk.part("truncation", files=sum(1 for gi in plan if plan[gi]["pfx"]), cuts=ncuts, opens=stats["cuts"], opened_prefixes=stats["opened"],
              undecided=stats["undecided"], rejection_codes=code_hist,
              configs=[(wcommon.CODECS[c], p) for c, p in trunc_configs(tier)])
